@@ -170,23 +170,57 @@ package wal
 //@   ensures[C10.atomic] result != nil ==> g_commits == old(g_commits)
 //@   ensures[C10.published-only-on-success] result != nil ==> av(w.s) == old(av(w.s))
 
-//@ -- first/last index of a state snapshot; uint64(g_obs_first) / uint64(g_obs_last) remember the
-//@ -- values a caller observed (so that DeleteRange's classification can be
-//@ -- stated over them)
+//@ -- ------------------------------------------------------------------------
+//@ -- state.go: the in-memory view. Segments are keyed by BaseIndex in an
+//@ -- immutable sorted map; the greatest key is the unsealed tail.
+//@ -- ------------------------------------------------------------------------
+//@ predicate unsealedSeg(seg) = iszero(seg.SealTime)
+
+//@ -- WFS(s): a well-formed state (every published state satisfies it)
+//@ predicate WFS(s) = s.segments != nil && s.tail != nil && smnonempty(s.segments)
+//@   && (forall k uint64 :: {smhas(s.segments, k)} smhas(s.segments, k) ==> k >= 1 && smget(s.segments, k).BaseIndex == k && smget(s.segments, k).MinIndex >= k && smget(s.segments, k).r != nil)
+//@   && unsealedSeg(smget(s.segments, smmax(s.segments))) && s.tail.base == smmax(s.segments)
+//@   && (s.tail.last == 0 || s.tail.last >= smget(s.segments, smmax(s.segments)).MinIndex)
+//@   && (forall k uint64 :: {smhas(s.segments, k)} smhas(s.segments, k) && k != smmax(s.segments) ==>
+//@          !unsealedSeg(smget(s.segments, k)) && smget(s.segments, k).MinIndex <= smget(s.segments, k).MaxIndex
+//@          && hasnext(s.segments, k) && smnext(s.segments, k) == smget(s.segments, k).MaxIndex + 1)
+
+//@ -- the reference model's bounds (property C05), as functions of the state
+//@ predicate FirstOf(s) = ite(smmin(s.segments) == smmax(s.segments) && s.tail.last == 0, 0, smget(s.segments, smmin(s.segments)).MinIndex)
+//@ predicate LastOf(s) = ite(s.tail.last > 0, s.tail.last, ite(smmin(s.segments) == smmax(s.segments), 0, smmax(s.segments) - 1))
+
 //@ func (*state).firstIndex
-//@   trusted derivation of first/last from the segment map is covered by the segment-map model (not yet under contract)
-//@   ensures true
+//@   props C05
+//@   requires WFS(s)
+//@   ensures[C05.first] result == FirstOf(s)
 //@   ghostset g_obs_first = result
+
 //@ func (*state).lastIndex
-//@   trusted derivation of first/last from the segment map is covered by the segment-map model (not yet under contract)
-//@   ensures true
+//@   props C05
+//@   requires WFS(s)
+//@   ensures[C05.last] result == LastOf(s)
 //@   ghostset g_obs_last = result
+
 //@ func (*state).getTailInfo
-//@   trusted covered by the segment-map model (not yet under contract)
-//@   ensures true
+//@   props C05
+//@   requires s.segments != nil
+//@   ensures[C05.tailinfo] (result == nil <==> !smnonempty(s.segments))
+//@   ensures[C05.tailinfo-fields] result != nil ==> result.BaseIndex == smget(s.segments, smmax(s.segments)).BaseIndex && result.ID == smget(s.segments, smmax(s.segments)).ID
+//@      && result.MinIndex == smget(s.segments, smmax(s.segments)).MinIndex && result.MaxIndex == smget(s.segments, smmax(s.segments)).MaxIndex
+//@      && result.SealTime == smget(s.segments, smmax(s.segments)).SealTime && result.IndexStart == smget(s.segments, smmax(s.segments)).IndexStart
+
+//@ func (*state).findSegmentReader
+//@   props C05
+//@   requires WFS(s)
+//@   ensures[C05.find-err] result1 != nil ==> result1 == types.ErrNotFound
+//@   ensures[C05.find-reader] result1 == nil ==> result0 != nil
+//@   ensures[C05.find-sound] result1 == nil ==> smhas(s.segments, seg.BaseIndex) && seg.BaseIndex <= idx && seg.MinIndex <= idx && (seg.MaxIndex == 0 || seg.MaxIndex >= idx)
+//@   ensures[C05.find-not-below-first] result1 == nil ==> smget(s.segments, smmin(s.segments)).MinIndex <= idx
+
 //@ func (*state).getLog
-//@   trusted covered by the segment-map model (not yet under contract)
-//@   ensures true
+//@   props C05
+//@   requires WFS(s)
+//@   ensures[C05.notfound-below-first] FirstOf(s) != 0 && index < FirstOf(s) ==> result1 == types.ErrNotFound
 
 //@ func (*WAL).acquireState
 //@   inline
